@@ -111,6 +111,9 @@ func numBuild(c *numCase) (*numParser, error) {
 	if c.Shape == "multifirst" || c.Shape == "multilast" {
 		tag = "@Num @Num"
 	}
+	if c.Shape == "negcap" {
+		tag = `@!"never"` // the token is captured through a negation
+	}
 	if c.Shape == "typedwild" {
 		tag = strings.ReplaceAll(tag, "@Num", `@"":Num`)
 	}
